@@ -33,7 +33,39 @@ StmtBodies ==
            c1 \in {C}, c2 \in {Bin(">", N, IntL(0)), Bin("==", M, IntL(2))}}
   \cup {Block(<<Sw(N, <<Case(IntL(0), <<Sw(M, <<Case(IntL(1), <<Ret(IntL(11))>>), Case(IntL(2), <<BrkS(0)>>)>>, Def(2, <<SExpr(IntL(12))>>))>>),
                          Case(IntL(1), <<Ret(IntL(13))>>)>>, d), Ret(IntL(14))>>) : d \in {NoneS(0), Def(1, <<BrkS(0)>>), Def(0, <<>>)}}
-StmtProgs == {[prop |-> "ival", body |-> b] : b \in StmtBodies}
+\* the clauses of a switch are one scope: a variable declared directly in a clause shadows an outer one of the same name in the later
+\* clauses (reached by fall-through) and no longer after the switch
+S == Lv("s")
+SwScope == {Block(<<Let("s", IntL(100)),
+                    Sw(N, <<Case(IntL(0), <<Let("s", M), SExpr(S)>> \o t0), Case(IntL(1), <<Asg("s", Bin("+", S, IntL(1))), SExpr(S)>>)>>, d), tl>>)
+              : t0 \in {<<>>, <<BrkS(0)>>}, d \in {NoneS(0), Def(2, <<SExpr(Bin("*", S, IntL(3)))>>), Def(0, <<Let("q", IntL(7))>>)},
+                tl \in {SExpr(S), Ret(Bin("*", S, IntL(2)))}}
+       \cup {Block(<<Let("s", N), Sw(M, <<Case(IntL(2), <<Const("s", IntL(5)), If(C, BrkS(0), NoneS(0))>>), Case(IntL(3), <<Ret(S)>>)>>, NoneS(0)), SExpr(Bin("+", S, IntL(1)))>>)}
+       \cup {Block(<<Let("s", N), If(C, Sw(M, <<Case(IntL(2), <<Let("s", IntL(5)), SExpr(S)>>)>>, Def(1, <<SExpr(S)>>)), NoneS(0)), SExpr(S)>>)}
+\* declarations with a type annotation, with and without initialiser (docs/language.md: "type annotation or initial value is required")
+U == Rd(A, "uval")
+TypedInt ==
+     {Block(<<LetU("r", "int"), If(c, Asg("r", N), Asg("r", M)), SExpr(Lv("r"))>>) : c \in {C, Bin("<", N, M)}}
+  \cup {Block(<<LetT("x", "int", N), LetT("y", "int", IntL(2)), Asg("x", Bin("*", Lv("x"), Lv("y"))), SExpr(Lv("x"))>>)}
+  \cup {Block(<<LetT("u", "uint", IntL(3)), SExpr(Cast(Bin("+", Lv("u"), U), "int"))>>)}
+  \cup {Block(<<LetT("u", "uint", U), Asg("u", IntL(7)), SExpr(Cast(Bin("/", Lv("u"), IntL(2)), "int"))>>)}
+  \cup {Block(<<LetU("u", "uint"), Asg("u", IntL(9)), Ret(Cast(Bin("-", Lv("u"), IntL(4)), "int"))>>)}
+  \cup {Block(<<LetT("p", "TSource", NullE(0)), If(C, Asg("p", Rd(A, "ptr")), NoneS(0)), SExpr(Tern(Bin("!=", Lv("p"), NullE(0)), Rd(Lv("p"), "ival"), IntL(9)))>>)}
+  \cup {Block(<<LetT("p", "TSource", B), Ret(Bin("+", Rd(Lv("p"), "ival"), IntL(1)))>>)}
+  \cup {Block(<<LetT("x", "int", IntL(1)), Block(<<LetU("x", "int"), Asg("x", N)>>), SExpr(Lv("x"))>>)}
+  \cup {Block(<<LetU("r", "int"), Sw(N, <<Case(IntL(0), <<Asg("r", IntL(10)), BrkS(0)>>), Case(IntL(1), <<Asg("r", M)>>)>>, Def(2, <<Asg("r", IntL(30))>>)), SExpr(Lv("r"))>>)}
+  \cup {Block(<<LetT("g", "bool", C), LetT("m", "TSource.Mode", En("Mode", "ModeB")), If(Lv("g"), Asg("m", Rd(A, "mode")), NoneS(0)),
+                 Ret(Tern(Bin("==", Lv("m"), En("Mode", "ModeB")), N, M))>>)}
+TypedOther ==
+     {[prop |-> "text", body |-> Block(<<LetT("s", "QString", Str("x")), If(C, Asg("s", Bin("+", Lv("s"), Rd(A, "text"))), NoneS(0)), SExpr(Lv("s"))>>)],
+      [prop |-> "text", body |-> Block(<<LetU("s", "QString"), If(C, Asg("s", Str("y")), Asg("s", Rd(A, "text"))), Ret(Lv("s"))>>)],
+      [prop |-> "dval", body |-> Block(<<LetT("d", "double", Dbl(2)), Asg("d", Bin("+", Lv("d"), Rd(A, "dval"))), SExpr(Lv("d"))>>)],
+      [prop |-> "mode", body |-> Block(<<LetT("m", "TSource.Mode", En("Mode", "ModeC")), If(C, Asg("m", Rd(A, "mode")), NoneS(0)), Ret(Lv("m"))>>)],
+      [prop |-> "items", body |-> Block(<<LetT("l", "QStringList", Arr(<<>>)), If(C, Asg("l", Rd(A, "items")), NoneS(0)), Ret(Lv("l"))>>)],
+      [prop |-> "ptr", body |-> Block(<<LetT("p", "TSource", NullE(0)), If(C, Asg("p", B), NoneS(0)), Ret(Lv("p"))>>)],
+      [prop |-> "uval", body |-> Block(<<LetT("u", "uint", IntL(2)), Ret(Bin("*", Lv("u"), U))>>)],
+      [prop |-> "flag", body |-> Block(<<LetT("f", "bool", Bool(FALSE)), If(Bin(">", N, IntL(0)), Asg("f", C), NoneS(0)), SExpr(Lv("f"))>>)]}
+StmtProgs == {[prop |-> "ival", body |-> b] : b \in StmtBodies \cup SwScope \cup TypedInt} \cup TypedOther
 
 
 VARIABLE prog
